@@ -197,7 +197,7 @@ def ppo_loss(
     surrogate2 = jnp.clip(ratios, 1 - clip, 1 + clip) * advantages
     policy_loss = -jnp.mean(jnp.minimum(surrogate1, surrogate2))
 
-    values = critic(observations)
+    values = critic(observations).flatten()
     value_loss = jnp.mean((returns - values) ** 2)
 
     return (
